@@ -44,6 +44,22 @@ Theorem C06_keys_untouched : forall fl dm ops rs at_, at_ <= s_clock (rs_st rs) 
 Proof. exact keys_stable. Qed.
 Print Assumptions C06_keys_untouched.
 
+(** What C03 and C06 assume of the write path and what the model guarantees: commit order = time order.  Everything
+    already in the store is stamped at or before the clock; everything the next commit adds (versions and reference
+    keys) is stamped with the next clock value - so successive commits carry strictly increasing times.  (An
+    implementation that takes a transaction's timestamp BEFORE waiting for the dataset lock breaks exactly this:
+    the correspondence runs force that schedule with two racing writers.) *)
+Theorem C06_commit_order : forall fl dm ops fl' dm' o,
+  let rs := rrun fl dm ops rstore0 in
+  let rs' := rapply fl' dm' rs o in
+  (forall k, In k (rs_keys rs) -> r_time k <= s_clock (rs_st rs))
+  /\ (forall ds, Forall (fun e => en_time e <= s_clock (rs_st rs)) (d_entries (get_ds (rs_st rs) ds)))
+  /\ (forall k, In k (rs_keys rs') -> In k (rs_keys rs) \/ r_time k = s_clock (rs_st rs) + 1)
+  /\ (forall ds, exists P, d_entries (get_ds (rs_st rs') ds) = d_entries (get_ds (rs_st rs) ds) ++ P
+                          /\ Forall (fun e => en_time e = s_clock (rs_st rs) + 1) P).
+Proof. exact commit_order_is_time_order. Qed.
+Print Assumptions C06_commit_order.
+
 (** the body of a related entity, when it is read at the query's own instant (repaired), is pinned too *)
 Theorem C06_related_body : forall fl dm ops fl' dm' later fr k,
   let rs := rrun fl dm ops rstore0 in
